@@ -9,12 +9,12 @@ Run twice: default features and `option-more-parentheses`.
 """
 import re
 from vlib import rustlex as rl
-from vlib.gen import make_r_fmt, make_r_sub, r_dynw, r_unit_tail, make_r_tailbind, DEFAULT_FEATURES
+from vlib.gen import make_r_fmt, make_r_sub, r_dynw, r_unit_tail, make_r_tailbind, DEFAULT_FEATURES, r_enumerate
 
 M = "src/backend/mod.rs"
 QB = "src/backend/query_builder.rs"
 P = ["C05"]
-OPAQUE = ["ColumnRef", "FunctionCall", "SubQueryOper", "SubQueryStatement", "Keyword", "DynIden", "CaseStatement"]
+OPAQUE = ["ColumnRef", "FunctionCall", "SubQueryOper", "SubQueryStatement", "Keyword", "DynIden", "Condition"]
 BACK = {"MysqlQueryBuilder": ("MySql", "src/backend/mysql/mod.rs", "src/backend/mysql/mod.rs"),
         "PostgresQueryBuilder": ("Postgres", "src/backend/postgres/query.rs", "src/backend/postgres/query.rs"),
         "SqliteQueryBuilder": ("Sqlite", "src/backend/sqlite/mod.rs", "src/backend/sqlite/mod.rs")}
@@ -39,6 +39,9 @@ def build(u, variant=None):
     u.type_item("src/extension/sqlite/mod.rs", "enum", "SqliteBinOper", props=P, keep_derive=("Clone", "Copy"))
     u.type_item("src/types.rs", "enum", "BinOper", props=P, keep_derive=("Clone", "Copy"))
     u.type_item("src/expr.rs", "enum", "SimpleExpr", props=P)
+    # CASE: real types (the renderer is under contract: the whole expression sits inside ONE pair of parentheses)
+    u.type_item("src/query/case.rs", "struct", "CaseStatementCondition", props=P, rules=[r_vis])
+    u.type_item("src/query/case.rs", "struct", "CaseStatement", props=P, rules=[r_vis])
     u.type_item(M, "enum", "Oper", props=P)
     u.prelude_file("units/prec/spec.rs", props=P)
 
@@ -132,5 +135,31 @@ def build(u, variant=None):
                     ("    // C05: NOT x without parentheses only if x binds tighter than NOT\n    drop_of(%(E)s, %(MP)s, *expr, Oper::UnOper(*op)) ==> safe_bare(%(E)s, *expr, Oper::UnOper(*op))," % {"E": E, "MP": MP}, P)],
               proofs={"body-start": "let ghost t0 = sql.text();\nproof { reveal_strlit(\"(\"); reveal_strlit(\")\"); reveal_strlit(\" \"); assert(\"(\"@ =~= seq!['(']); assert(\")\"@ =~= seq![')']); assert(\" \"@ =~= seq![' ']); }",
                       "body-end": "proof { lemma_paren(!drop_expr_paren, expr_text(%(E)s, *expr)); assert(sql.text() =~= t0 + un_oper_text(%(E)s, *op) + seq![' '] + paren(!drop_expr_paren, expr_text(%(E)s, *expr))); }" % {"E": E}})
+        # ---- operands that delimit themselves (spec `atomic`): a tuple and a CASE expression are written inside ONE pair of parentheses --------
+        u.spec("""    #[verifier::external_body]
+    fn prepare_condition_where<W: VWrite>(&self, x: &Condition, sql: &mut W) ensures final(sql).text() == old(sql).text() + cond_text(%(E)s, *x) { unimplemented!() }
+    // #[derive(Clone)] (trusted): a structural copy
+    #[verifier::external_body]
+    fn vclone_opt_expr(x: &Option<SimpleExpr>) -> (r: Option<SimpleExpr>) ensures r == *x { unimplemented!() }
+""" % {"E": E}, "prec::abstract-renderers(case)", props=P)
+        u.fn(QB, "trait QueryBuilder", "prepare_tuple", props=P, key="%s::prepare_tuple" % ty, vpath="%s::prepare_tuple" % ty,
+             rules=[r_dynw, make_r_sub("R-slice", r"exprs: &\[SimpleExpr\]", "exprs: &Vec<SimpleExpr>"), r_enumerate, r_fmt],
+             spec="ensures\n    // ( e1, e2, .. ): the members in call order, comma separated, inside ONE pair of parentheses - a tuple delimits itself\n    final(sql).text() == old(sql).text() + \"(\"@ + tuple_inner(%s, exprs@, exprs@.len()) + \")\"@," % E,
+             loops=["invariant i == ite1.index@, ite1.index@ <= exprs@.len(), exprs@.len() <= usize::MAX, sql.text() == t0 + \"(\"@ + tuple_inner(%s, exprs@, ite1.index@ as nat)," % E],
+             proofs={"body-start": "let ghost t0 = sql.text();\nproof { axiom_vec_len_fits(exprs); }",
+                     "before#1:let mut i: usize = 0;": "proof { assert(sql.text() =~= t0 + \"(\"@ + tuple_inner(%s, exprs@, 0)); }" % E,
+                     "before#1:i += 1;": "proof { assert(sql.text() =~= t0 + \"(\"@ + tuple_inner(%s, exprs@, (ite1.index@ + 1) as nat)); }" % E})
+        u.fn(QB, "trait QueryBuilder", "prepare_case_statement", props=P, key="%s::prepare_case_statement" % ty, vpath="%s::prepare_case_statement" % ty,
+             rules=[r_dynw, r_fmt,
+                    make_r_sub("R-refpat", r"let CaseStatement \{ when, r#else \} = stmts;", "let when = &stmts.when; let else_ = &stmts.r#else;"),
+                    make_r_sub("R-rawident", r"if let Some\(r#else\) = r#else\.clone\(\)", "if let Some(else_v) = Self::vclone_opt_expr(else_)"),
+                    make_r_sub("R-rawident", r"self\.prepare_simple_expr\(&r#else, sql\)", "self.prepare_simple_expr(&else_v, sql)"),
+                    make_r_sub("R-forghost", r"for case in when\.iter\(\)", "for case in itw: when.iter()")],
+             spec="ensures\n    // (CASE WHEN (cond) THEN result .. [ELSE result] END): every condition inside its own parentheses, the whole expression inside ONE pair - it delimits itself\n    final(sql).text() == old(sql).text() + \"(CASE\"@ + whens_text(%(E)s, stmts.when@, stmts.when@.len()) + (match stmts.r#else { Some(x) => \" ELSE \"@ + expr_text(%(E)s, x), None => Seq::<char>::empty() }) + \" END)\"@," % {"E": E},
+             loops=["invariant itw.index@ <= when@.len(), sql.text() == t0 + \"(CASE\"@ + whens_text(%s, when@, itw.index@ as nat)," % E],
+             proofs={"body-start": "let ghost t0 = sql.text();",
+                     "before#1:for case in itw": "proof { assert(sql.text() =~= t0 + \"(CASE\"@ + whens_text(%s, when@, 0)); }" % E,
+                     "loop1-end": "proof { assert(sql.text() =~= t0 + \"(CASE\"@ + whens_text(%s, when@, (itw.index@ + 1) as nat)); }" % E,
+                     "body-end": "proof { assert(sql.text() =~= t0 + \"(CASE\"@ + whens_text(%(E)s, stmts.when@, stmts.when@.len()) + (match stmts.r#else { Some(x) => \" ELSE \"@ + expr_text(%(E)s, x), None => Seq::<char>::empty() }) + \" END)\"@); }" % {"E": E}})
         u.emit("}\n")
     u.emit("} // verus!\nfn main() {}\n")
